@@ -158,7 +158,16 @@ fn scenario(line: &str) -> (String, bool) {
                 'e' => { eprintln!("scripted handler error"); }
                 'l' => std::thread::sleep(Duration::from_millis(20)),
                 'b' => { barrier.wait(); }
-                'p' => panic!("scripted job panic"),
+                // every kind of panic payload a failing connection can produce: a literal (&str), a
+                // formatted message (String), real runtime panics (index, unwrap, arithmetic), a non-string payload
+                'p' => match t % 6 {
+                    0 => panic!("scripted job panic"),
+                    1 => panic!("scripted job panic number {}", t),
+                    2 => { let v: Vec<u8> = vec![1, 2, 3]; let i = v.len() + t; let _ = std::hint::black_box(v[std::hint::black_box(i)]); }
+                    3 => { let o: Option<u8> = std::hint::black_box(None); let _ = o.unwrap(); }
+                    4 => { let r: Result<u8, String> = std::hint::black_box(Err(format!("e{}", t))); let _ = r.unwrap(); }
+                    _ => std::panic::panic_any(t),
+                },
                 _ => {}
             }
         });
